@@ -9,10 +9,16 @@
     - the positions handed to the work buffer are positions of the text (C03), so the checks
       "offset within the source" cannot fail for a reason other than a wrong token order.
     Proved for the production [';'*] of the construct grammar: the run returns within the
-    budget, without internal error (C12_empty_statements). *)
-From Coq Require Import NArith List Bool.
-From SasLexer Require Import Gen.TokenType Gen.ErrorKind Gen.Channel Model.Base Model.Core Model.Lexer3
-     Proofs.Generic Proofs.NoPanic Proofs.SemiProgram.
+    budget, without internal error (C12_empty_statements).
+    Proved for every macro-free text (no macro trigger anywhere; any length, any characters,
+    with or without byte-order mark; release profile): the run returns, is not cut by the
+    iteration budget, reports no error of the internal class, and stays linear: at most two
+    scanner iterations per character, 3n+4 tokens and 2n+2 errors
+    ([C01_macro_free_total], a corollary of the simulation of C11 and of the fact that the
+    reference lexer only reports user-level kinds). *)
+From Coq Require Import NArith List Bool Lia.
+From SasLexer Require Import Gen.TokenType Gen.ErrorKind Gen.Channel Model.Base Model.Core Model.Lexer3 Spec.RefLex
+     Proofs.Generic Proofs.NoPanic Proofs.SemiProgram Proofs.RefLexErrors Proofs.OcBase Proofs.OcWhole Proofs.OcAll.
 Import ListNotations.
 Open Scope N_scope.
 
@@ -37,3 +43,38 @@ Theorem C01_empty_statements_terminate : forall (m : bool) (n : nat),
 Proof.
   intros m n. destruct (semis_program m n) as (H1 & H2 & _ & _ & _ & _ & _ & H8). auto.
 Qed.
+
+Theorem C01_macro_free_total : forall msep src, macro_free (body_of src) = true ->
+  let r := lex (mkCfg false msep) src in
+  lr_outcome r = None /\ s_aborted (lr_end r) = false /\ s_aborted (lr_state r) = false /\
+  Forall (fun e => ek_is_internal (e_kind e) = false) (lr_errors r) /\
+  (* linear work and output *)
+  s_iters (lr_end r) <= 2 * len src /\
+  (List.length (b_toks (lr_buffer r)) <= 3 * List.length src + 4)%nat /\
+  (List.length (lr_errors r) <= 2 * List.length src + 2)%nat.
+Proof.
+  intros msep src H. pose proof (lex_is_reflex_macro_free msep src H) as G. cbv zeta in G |- *.
+  pose proof (reflex_errs_user src) as U. pose proof (reflex_counts src) as Cn.
+  destruct (reflex src) as [[T E] lit]. cbn [fst snd] in U.
+  destruct G as (G1 & G2 & G3 & G4 & _ & G6 & _ & G8). destruct Cn as [Ct Ce].
+  split; [exact G1|]. split; [exact G6|]. split; [exact G2|].
+  assert (K : map e_kind (lr_errors (lex (mkCfg false msep) src)) = map re_kind E).
+  { pose proof (f_equal (map fst) G4) as K. rewrite !map_map in K. exact K. }
+  split.
+  { revert K. generalize (lr_errors (lex (mkCfg false msep) src)) as L. clear -U.
+    induction U as [|e es He _ IH]; intros [|x L] K; cbn [map] in K; try discriminate; constructor.
+    - injection K as K1 _. rewrite K1. apply user_not_internal. exact He.
+    - injection K as _ K2. apply IH. exact K2. }
+  split.
+  { assert (Hb : len (body_of src) <= len src).
+    { unfold body_of, split_bom, len. destruct src as [|c r]; [cbn; lia|]. destruct (c =? BOM); cbn [snd List.length]; lia. }
+    lia. }
+  split.
+  - pose proof (f_equal (@List.length _) G3) as L. rewrite !map_length in L. lia.
+  - pose proof (f_equal (@List.length _) K) as L. rewrite !map_length in L. lia.
+Qed.
+Print Assumptions C01_macro_free_total.
+
+(** the premise is satisfiable *)
+Example c01_macro_free_example : macro_free (body_of [100; 97; 116; 97; 32; 34; 97; 59]) = true.
+Proof. vm_compute. reflexivity. Qed.
